@@ -1,3 +1,5 @@
+import MLPE.Basic
 import MLPE.Store
+import MLPE.Eng
 import MLPE.Proofs.Store
 import MLPE.Props.C18
